@@ -456,6 +456,9 @@ def api_half(src, toks, errs, lit, labels):
             return isinstance(a, float) and (a == r or (a != a and r != r))
         if r is None:
             return a is None
+        if isinstance(r, int) and not isinstance(r, bool):
+            # 42.0 == 42 in Python: an integer of the payload must arrive as an int (an IntEnum member is one)
+            return isinstance(a, int) and not isinstance(a, bool) and a == r
         return a == r and not isinstance(a, bool)
 
     for what, objs, raws, fields, enums in (("token", at, toks, TF, {"channel": "TokenChannel", "token_type": "TokenType"}), ("error", ae, errs, EF, {"error_kind": "ErrorKind"})):
